@@ -22,6 +22,7 @@ import (
 	"syscall"
 	"text/template"
 	"time"
+	"unicode"
 
 	log "github.com/sirupsen/logrus"
 	"github.com/spf13/cobra"
@@ -64,6 +65,12 @@ func init() {
 	}
 }
 
+// splitBuildTags splits the value of the --tags flag, which, as for the go
+// command, is a comma-separated or (older form) space-separated list.
+func splitBuildTags(tags string) []string {
+	return strings.FieldsFunc(tags, func(r rune) bool { return r == ',' || unicode.IsSpace(r) })
+}
+
 func main() {
 	var (
 		options = &gbuild.Options{}
@@ -97,7 +104,7 @@ func main() {
 	cmdBuild.Flags().AddFlagSet(compilerFlags)
 	cmdBuild.Flags().AddFlagSet(flagWatch)
 	cmdBuild.RunE = func(cmd *cobra.Command, args []string) error {
-		options.BuildTags = strings.Fields(tags)
+		options.BuildTags = splitBuildTags(tags)
 		for {
 			s, err := gbuild.NewSession(options)
 			if err != nil {
@@ -183,7 +190,7 @@ func main() {
 	cmdInstall.Flags().AddFlagSet(compilerFlags)
 	cmdInstall.Flags().AddFlagSet(flagWatch)
 	cmdInstall.RunE = func(cmd *cobra.Command, args []string) error {
-		options.BuildTags = strings.Fields(tags)
+		options.BuildTags = splitBuildTags(tags)
 		for {
 			s, err := gbuild.NewSession(options)
 			if err != nil {
@@ -270,7 +277,7 @@ func main() {
 	cmdRun.Flags().AddFlagSet(flagQuiet)
 	cmdRun.Flags().AddFlagSet(compilerFlags)
 	cmdRun.RunE = func(cmd *cobra.Command, args []string) error {
-		options.BuildTags = strings.Fields(tags)
+		options.BuildTags = splitBuildTags(tags)
 		lastSourceArg := 0
 		for {
 			if lastSourceArg == len(args) || !(strings.HasSuffix(args[lastSourceArg], ".go") || strings.HasSuffix(args[lastSourceArg], incjs.Ext)) {
@@ -322,7 +329,7 @@ func main() {
 	parallelTests := cmdTest.Flags().IntP("parallel", "p", runtime.NumCPU(), "Allow running tests in parallel for up to -p packages. Tests within the same package are still executed sequentially.")
 	cmdTest.Flags().AddFlagSet(compilerFlags)
 	cmdTest.RunE = func(cmd *cobra.Command, args []string) error {
-		options.BuildTags = strings.Fields(tags)
+		options.BuildTags = splitBuildTags(tags)
 
 		// Expand import path patterns.
 		patternContext := gbuild.NewBuildContext("", options.BuildTags)
@@ -483,7 +490,7 @@ func main() {
 	var addr string
 	cmdServe.Flags().StringVarP(&addr, "http", "", ":8080", "HTTP bind address to serve")
 	cmdServe.RunE = func(cmd *cobra.Command, args []string) error {
-		options.BuildTags = strings.Fields(tags)
+		options.BuildTags = splitBuildTags(tags)
 		var root string
 
 		if len(args) == 1 {
